@@ -165,6 +165,12 @@ def finish(prop, spec, results, bounded, tier, seed, t0, verbose=False, partial=
         elif v['status'] == 'refuted':
             if tag == 'helper':
                 drift.append(v)
+            elif (v.get('meta') or {}).get('library_unknowns_on_path'):
+                # the path this obligation speaks about went through a library / module-level object nobody under contract models
+                # (typically the real body of a renamed helper, inlined): its result was over-approximated as arbitrary, so the
+                # counter-model need not be an execution.  Undecided - the stand-ins decide on real executions.
+                undecided.append((v['name'], 'refuted only under an arbitrary result of unmodelled library objects: '
+                                  + ', '.join(v['meta']['library_unknowns_on_path'][:5])))
             elif COVERAGE_GUARD.search(v['name']) and v.get('unit_unknown_used'):
                 # a coverage guard counts the paths / call sites the contract is written for.  When the unit ran into code the engine has
                 # no model for (over-approximated as unknown), too few of them means the contract could not SEE the code - undecided.
@@ -173,7 +179,7 @@ def finish(prop, spec, results, bounded, tier, seed, t0, verbose=False, partial=
                                   + ', '.join(v['unit_unknown_used'][:5])))
             else:
                 violations.append(v)
-        elif tree_changed and v['name'] in base_proved:
+        elif tree_changed and v['name'] in base_proved and not (v.get('meta') or {}).get('library_unknowns_on_path'):
             # discharged on the recorded baseline tree, not dischargeable on this (changed) tree
             v['regressed'] = True
             violations.append(v)
